@@ -341,13 +341,14 @@ pub fn observe(src: &str, context: &[&str], opts: &Opts) -> Obs {
                 Some(next) => {
                     steps += 1;
                     if opts.trace_every > 0 && steps % opts.trace_every == 0 && obs.trace.len() < opts.max_trace {
-                        obs.trace.push(mirror(&next));
+                        obs.trace.push(m2.go(&next));
                     }
                     cur = next;
                 }
                 None => {
                     return if is_value(&cur) {
-                        Run::Value { value: mirror(&cur), text: cur.to_string(), steps }
+                        // same Mirror as the elaborated term and type: hole identities stay comparable
+                        Run::Value { value: m2.go(&cur), text: cur.to_string(), steps }
                     } else {
                         Run::Stuck { class: classify_stuck(&cur, &parse_cells), term: crate::util::clip(&cur.to_string(), 400), steps }
                     };
@@ -368,7 +369,7 @@ pub fn observe(src: &str, context: &[&str], opts: &Opts) -> Obs {
         if short {
             if let Ok(res) = guard(|| crate::evaluator::evaluate(&elab)) {
                 obs.evaluate_agrees = Some(match (&obs.run, res) {
-                    (Run::Value { value, .. }, Ok(v)) => mirror(&v) == *value,
+                    (Run::Value { value, .. }, Ok(v)) => crate::hast::canon_holes(&mirror(&v)) == crate::hast::canon_holes(value),
                     (Run::Stuck { .. }, Err(e)) => e.message.contains("is stuck!"),
                     _ => false,
                 });
